@@ -20,7 +20,7 @@ import random
 import re
 import sys
 import unicodedata
-from multiprocessing import Pool
+from concurrent.futures import ThreadPoolExecutor
 
 from harness.base import Results, corpus_lines
 from tools.facts.common import fresh_import
@@ -640,9 +640,13 @@ def first_difference(impl_runs, model_text):
     return None
 
 
+_POOL = ThreadPoolExecutor(max_workers=3)      # driver processes answering sweeps concurrently
+
+
 def check_table(ctx, res, name, fn, pre, suf, segments, md):
     """segments: [(lo, hi, runs)] - the implementation's outcomes on pre+chr(c)+suf.  Oracle on the
-    candidates, model (driver `sweep`) on everything."""
+    candidates here; the model (driver `sweep`, every code point) is asked asynchronously:
+    -> (code points covered, pending comparison for `finish_table`)"""
     lines, ncp = [], 0
     for lo, hi, runs in segments:
         ncp += hi - lo + 1
@@ -665,20 +669,27 @@ def check_table(ctx, res, name, fn, pre, suf, segments, md):
                 sx = pre + chr(rlo) + suf
                 res.violation('c18:other-exception:' + fn, Case(OPS[fn], sx).record(),
                               f'{fn}({sx!r}) raised {o}', scope='sweep:' + name)
-    model = ctx.model(lines)
-    if model is not None:
-        for (lo, hi, runs), line, m in zip(segments, lines, model):
-            if m != facts_c18.rle_text(runs):
-                d = first_difference(runs, m)
-                if d is None:
-                    res.disagreement({'op': 'sweep', 'context': name, 'lo': lo, 'hi': hi},
-                                     facts_c18.rle_text(runs)[:300], m[:300], scope='sweep:' + name, line=line[:200])
-                    continue
-                cp, io, mo = d
-                rec = Case(OPS[fn], pre + chr(cp) + suf).record()
-                res.disagreement(rec, io, mo, scope='sweep:' + name, line=f'{OPS[fn]} {enc_val(pre + chr(cp) + suf)}')
+    fut = _POOL.submit(ctx.model, lines)
     res['evaluations'] += ncp
-    return ncp
+    return ncp, (name, fn, pre, suf, segments, lines, fut)
+
+
+def finish_table(res, pending):
+    """compare the model's answer (asked for asynchronously by `check_table`) with the table"""
+    name, fn, pre, suf, segments, lines, fut = pending
+    model = fut.result()
+    if model is None:
+        return
+    for (lo, hi, runs), line, m in zip(segments, lines, model):
+        if m != facts_c18.rle_text(runs):
+            d = first_difference(runs, m)
+            if d is None:
+                res.disagreement({'op': 'sweep', 'context': name, 'lo': lo, 'hi': hi},
+                                 facts_c18.rle_text(runs)[:300], m[:300], scope='sweep:' + name, line=line[:200])
+                continue
+            cp, io, mo = d
+            rec = Case(OPS[fn], pre + chr(cp) + suf).record()
+            res.disagreement(rec, io, mo, scope='sweep:' + name, line=f'{OPS[fn]} {enc_val(pre + chr(cp) + suf)}')
 
 
 def run_sweeps(ctx, res, level):
@@ -692,22 +703,30 @@ def run_sweeps(ctx, res, level):
     if not tables or set(tables) != set(contexts):
         tables = facts_c18.compute_tables(ctx.repo)
     total = 0
+    pending = []
+
+    def one(name, fn, pre, suf, segments):
+        nonlocal total
+        n, pend = check_table(ctx, res, name, fn, pre, suf, segments, md)
+        total += n
+        pending.append(pend)
     for name, (fn, pre, suf) in contexts.items():
-        runs = [tuple(r) for r in tables[name]]
-        total += check_table(ctx, res, name, fn, pre, suf, [(0, NCP - 1, runs)], md)
+        one(name, fn, pre, suf, [(0, NCP - 1, [tuple(r) for r in tables[name]])])
     full_classify = level >= 2
     segs = [[0, NCP - 1]] if full_classify else quick_segments(ctx.rng)
     cctx = facts_c18.CLASSIFY_CONTEXTS
     if full_classify:
         tabs = facts_c18.compute_tables(ctx.repo, cctx)
         for name, (fn, pre, suf) in cctx.items():
-            total += check_table(ctx, res, name, fn, pre, suf, [(0, NCP - 1, [tuple(r) for r in tabs[name]])], md)
+            one(name, fn, pre, suf, [(0, NCP - 1, [tuple(r) for r in tabs[name]])])
     else:
         names = list(cctx)[:4] if level == 0 else list(cctx)
         for name in names:
             fn, pre, suf = cctx[name]
-            seg = [(lo, hi, [tuple(r) for r in facts_c18.sweep_runs(util, fn, pre, suf, lo, hi)]) for lo, hi in segs]
-            total += check_table(ctx, res, name, fn, pre, suf, seg, md)
+            one(name, fn, pre, suf,
+                [(lo, hi, [tuple(r) for r in facts_c18.sweep_runs(util, fn, pre, suf, lo, hi)]) for lo, hi in segs])
+    for pend in pending:
+        finish_table(res, pend)
     res['scopes']['sweep_strings'] = total
     res['scopes']['sweep_contexts'] = {'all_code_points': len(contexts) + (len(cctx) if full_classify else 0),
                                        'classify_subset': 0 if full_classify else (4 if level == 0 else len(cctx))}
@@ -1042,7 +1061,16 @@ RULE = ('case = one call of validate_protocol / is_valid_hostname / classify_hos
         'input (returned a value); distinct = distinct driver input lines')
 
 
+def need_model(ctx):
+    """the driver does not import the generated facts, so it builds even when a facts theorem
+    breaks; not having it is toolchain trouble (exit 2), never a quiet pass without the model"""
+    if not ctx.have_model and not os.environ.get('VERIF_ALLOW_NO_MODEL'):
+        from lib.vcheck import MachineryError
+        raise MachineryError('the model driver drv_c18 could not be built (lake build drv_c18)')
+
+
 def run(ctx):
+    need_model(ctx)
     init(ctx.repo)
     res = Results()
     rng = ctx.rng
@@ -1180,6 +1208,7 @@ def impl_only_checks(res):
 
 
 def replay(ctx, case):
+    need_model(ctx)
     init(ctx.repo)
     if 'case' in case and isinstance(case['case'], dict):
         case = case['case']
